@@ -65,6 +65,13 @@ func oaHook(fn *types.Func, recv Val, args []Val) (Val, bool) {
 			st.Fields[k] = args[1]
 			return VNil{}, true
 		}
+	case "github.com/pb33f/libopenapi/orderedmap.Get", "github.com/pb33f/ordered-map/v2.Get":
+		if st, ok := recv.(*VStruct); ok && st.Name == "omap" && len(args) == 1 {
+			if v, ok := st.Fields[valText(args[0])]; ok {
+				return VTuple{v, VBool{B: true}}, true
+			}
+			return VTuple{VNil{}, VBool{B: false}}, true
+		}
 	}
 	return nil, false
 }
